@@ -67,7 +67,8 @@ pub fn check(sc: &Scenario, ex: &Exec, a: &Analysis) -> Vec<Violation> {
         let prog = &sc.programs[d.handler];
         let (produced, errs) = prog.body.produced();
         let truth = &a.stream.truths[d.handler];
-        let no_body = truth.method == "HEAD" || prog.status == 204 || prog.status == 304;
+        // (a 101 is written by the upgrade service of the harness, not by the handler program)
+        let no_body = truth.method == "HEAD" || prog.status == 204 || prog.status == 304 || r.status == 101;
         if no_body || errs {
             continue;
         }
@@ -304,6 +305,15 @@ pub fn scenarios(_tier: &str) -> Vec<Scenario> {
             s.env.budgets = vec![("read", 10), ("write", 20), ("flush", 10), ("env", 40), ("envq", 10), ("shutdown", 2)];
         });
     }
+    // an upgrade service is configured and the (last) request asks for an upgrade: everything
+    // written for earlier responses must reach the socket, in order, before the 101
+    let upg = |i: usize| RequestSpec::new("GET", i).conn("upgrade").header("upgrade", "websocket");
+    add("upgrade-alone", vec![upg(0)], vec![ok_bytes()], &|s| s.config.upgrade = true);
+    add("upgrade-after-get", vec![RequestSpec::new("GET", 0), upg(1)], vec![ok_bytes(), ok_bytes()], &|s| s.config.upgrade = true);
+    add("upgrade-after-pending-get", vec![RequestSpec::new("GET", 0), upg(1)], vec![ok_bytes().pend(1), ok_bytes()], &|s| s.config.upgrade = true);
+    add("upgrade-after-large-get", vec![RequestSpec::new("GET", 0), upg(1)], vec![HandlerProgram::ok(BodySpec::Bytes(data(70_000, 3))), ok_bytes()], &|s| s.config.upgrade = true);
+    add("upgrade-after-streaming-get", vec![RequestSpec::new("GET", 0), upg(1)], vec![HandlerProgram::ok(BodySpec::BodyStream(vec![Chunk::Data(b"he".to_vec()), Chunk::Pending, Chunk::Data(b"llo".to_vec())])), ok_bytes()], &|s| s.config.upgrade = true);
+    add("upgrade-requested-but-no-upgrade-service", vec![RequestSpec::new("GET", 0), upg(1)], vec![ok_bytes(), ok_bytes()], &nop);
     // early response + linger
     add("early-response-linger", vec![RequestSpec::new("POST", 0).cl(&data(64, 1))], vec![ok_bytes().plan(PayloadPlan::HoldUnreadUntilBodyDone)], &|s| {
         s.config.disconnect_timeout_ms = 1000;
